@@ -12,6 +12,7 @@ import random
 import shutil
 import struct
 import tempfile
+import time
 
 import numpy as np
 
@@ -201,6 +202,32 @@ class Scratch:
         p = os.path.join(self.path, f"{self._n:05d}_{name}")
         os.makedirs(p)
         return p
+
+
+def sweep_stale_scratch():
+    """Scratch trees are named by the pid that made them; a worker killed by its run timeout cannot remove its own.
+    Trees whose process no longer exists are removed when the next check starts."""
+    root = scratch_root()
+    try:
+        names = os.listdir(root)
+    except OSError:
+        return 0
+    n = 0
+    for name in names:
+        parts = name.split("-")
+        if len(parts) < 4 or parts[0] != "verif" or not parts[-1].isdigit() or not parts[-2].isdigit():
+            continue
+        pid = int(parts[-2])
+        if os.path.exists(f"/proc/{pid}"):
+            continue
+        try:  # and old enough that no check in another process namespace can still be using it
+            if time.time() - os.stat(os.path.join(root, name)).st_mtime < 3 * 3600:
+                continue
+        except OSError:
+            continue
+        shutil.rmtree(os.path.join(root, name), ignore_errors=True)
+        n += 1
+    return n
 
 
 # --------------------------------------------------------------------------------------
